@@ -378,6 +378,11 @@ def r8_channels(ctx):
         ctx.check(bool(casts) and not fu[0].calls_to("::").__next__() if False else bool(casts), "ServerChannel->usize/discriminant", site_of(fu[0]), "channel id is not the enum discriminant")
 
 
+def r9_ack_lists(ctx):
+    import rules.C10 as C10
+    C10.r1_boundaries(ctx)
+
+
 RULES = [
     ("C01.R1", "mutations are (re)sent iff changed since the client's per-entity baseline and the send rate allows", r1_resend_baseline, 5, ["default", "all-features", "server-only"]),
     ("C01.R2", "acknowledgement: recorded tick, known message, forward-only (same rule as C11.R2)", r2_ack, 6, ["default", "all-features", "server-only"]),
@@ -387,5 +392,6 @@ RULES = [
     ("C01.R6", "tick-scoped buffers are consumed exactly once after their last reader", r6_tick_buffers, 10, ["default", "all-features", "server-only"]),
     ("C01.R7", "cross-frame accumulators merge keyed writes", r7_accumulate, 2, ["default", "all-features", "server-only"]),
     ("C01.R8", "update channel is reliable-ordered; channel ids match the channel table", r8_channels, 4, None),
+    ("C01.R9", "an acknowledgement covers exactly the entities whose data travelled in that message (same rule as C10.R1)", r9_ack_lists, 12, ["default", "all-features", "server-only"]),
 ]
 THOROUGH_CONFIGS = ["default", "all-features", "server-only", "client-only"]
